@@ -6,6 +6,14 @@
   lib/script/checker.go; executed by oracle_c02 and compared with the real code on every run).
   Spec  = GocoinV.Spec.SigHash (Spec/SigHash.lean, written from the BIP texts).
   All theorems hold for EVERY hash function `H` (they are equalities of preimages).
+
+  Outside the model (no theorem speaks about it; go/cmd/c02 tests it with concurrent callers in a child process):
+  the model is sequential — one digest request is one step (`hashLock` held for the whole body), and the tagged
+  hashes (`btc.Hasher`, here `tagPrefix` / `H`) are pure functions of their input, so an implementation that hands
+  the SAME hasher object to two goroutines, or publishes a cache field before it is filled, satisfies every theorem
+  below and is caught only by the parallel streams. Which script code / code-separator position the interpreter
+  passes at each executed CHECKSIG / CHECKMULTISIG is C01's model (Model/ScriptEval.lean); any per-input memo in
+  `SigChecker` is code outside this model and is covered by the end-to-end streams (scripts with several checks).
 -/
 import GocoinV.Model.SigHash
 import GocoinV.Spec.SigHash
